@@ -111,7 +111,7 @@ def main():
     S.tick(c, "validated")
     live = [e for e in events if not e.get("_skipped")]
     c.cov["evaluations"] = len(live)
-    c.cov["distinct_nontrivial"] = len({(e["case"], e["comp"], e["mode"]) for e in live if e["publicChanged"] and e["privateChanged"]})
+    c.cov["distinct_nontrivial"] = len({(e["case"], e["comp"], e["mode"]) for e in live if e["publicChanged"]})
     rej = {}
     for e in live:
         if "_verdict" in e:
@@ -123,8 +123,8 @@ def main():
     c.cov["with_private_change"] = sum(1 for e in live if e["privateChanged"])
     c.cov["rule"] = ("TLC-generated program pairs with 1-2 type mutations whose named types the model places in include/pub.h, src/priv.h or src/lib.c, compiled by %s; "
                      "abidiff --redundant with the public headers given as directory / header file / directory holding a .hh header, with and without --drop-private-types; "
-                     "non-trivial = pairs with both a public and a private change" % comps)
-    for e in [e for e in live if e["publicChanged"] and e["privateChanged"]][:3]:
+                     "non-trivial = (pair, mode) with a public change that must survive the filtering" % comps)
+    for e in [e for e in live if e["publicChanged"]][:2] + [e for e in live if e["privateChanged"]][:2]:
         c.sample({k: e[k] for k in ("mode", "dropPrivate", "publicChanged", "privateChanged", "reported", "exit", "place")})
     c.assumptions += ["Readings: see the module docstring of checks/C26.py"]
     c.finish()
